@@ -111,6 +111,8 @@ def gen_write(rng, w, p):
         bits = 8 * w.objs[(0x2300, sub)][0]
         if bits == 32 and rng.random() < 0.2:
             bits = 24
+        elif bits > 8 and rng.random() < 0.15:
+            bits = rng.choice([8, 16]) if bits == 32 else 8          # fewer bits than the object has: the first bytes of the object are mapped
         v = gen.maplink(0x2300, sub, bits)
         if rng.random() < 0.12:
             v = gen.maplink(rng.choice([0x2301, 0x2300, 0x1FFF]), rng.choice([0x20, 9, 0]), 8)
@@ -142,6 +144,10 @@ def expect(w, p, idx, sub, value, kind):
         if p.valid() or p.count != 0:
             return ("abort", None)
         c = w.entry_verdict(p, value)
+        if c is None:
+            wd = w.objs[(value >> 16, (value >> 8) & 0xFF)][0]
+            if (value & 0xFF) != 8 * wd and not (wd == 4 and (value & 0xFF) == 24):
+                return ("open",)      # a shorter field of a wider object: may be refused; if accepted it has to take effect as stored
         return ("abort", c) if c else ("ok",)
     if kind == "count":
         if p.valid():
@@ -334,6 +340,18 @@ def run_sequence(res, exe, rng, first, npdo, forced=None):
                     burst = [(p.comm(), 1, 4, p.cob | 0x80000000, "cob"), (p.mapi(), 0, 1, 0, "count")]
                     burst += [(p.mapi(), k, 4, gen.maplink(0x2300, rng.choice(sub32), 32), "entry") for k in range(1, 9)]
                     burst += [(p.mapi(), 0, 1, rng.choice([8, 8, 5, 3]), "count"), (p.mapi(), 0, 1, 2, "count")]
+            elif x < 0.06:
+                # short fields of wider objects (8 or 16 bits of a 32-bit object, 8 bits of a 16-bit object) in every slot
+                subs = [ss for ss in (1, 2, 4, 5, 7, 8) if w.entry_verdict(p, gen.maplink(0x2300, ss, 8)) is None]
+                if subs:
+                    k = rng.choice([2, 4, 8])
+                    burst = [(p.comm(), 1, 4, p.cob | 0x80000000, "cob"), (p.mapi(), 0, 1, 0, "count")]
+                    for j in range(1, k + 1):
+                        ss = rng.choice(subs)
+                        burst.append((p.mapi(), j, 4, gen.maplink(0x2300, ss, 8 if (w.objs[(0x2300, ss)][0] == 2 or k == 8) else rng.choice([8, 16])), "entry"))
+                    burst += [(p.mapi(), 0, 1, k, "count"), (p.comm(), 1, 4, p.cob & ~0x80000000, "cob")]
+                    if w.mode != OP:
+                        burst.append(("nmt", 1))
             elif x < 0.08 and p.tx:
                 # an event-driven TPDO with a running event time is switched to a synchronous type and re-validated
                 good = gen.maplink(0x2300, 3, 8)
